@@ -5,8 +5,9 @@
      (structural recursion on fuel = max 1 max_attempts - 1);
    - [step]: the call futures of several requests sharing one budget, at poll
      granularity (Poll / Advance / Complete / MakeReady events), with ghost logs.
-   Executable; no proofs here.  Time unit: milliseconds. *)
-From TR Require Import Lib.Base.
+   Executable; no proofs here.  Time unit: nanoseconds; the timer rounds deadlines up to
+   whole milliseconds and every poll has a cooperative budget (Lib/TokioTime.v). *)
+From TR Require Import Lib.Base Lib.TokioTime.
 
 Section Retry.
   Context {Res Err : Type}.
@@ -18,8 +19,11 @@ Section Retry.
   Definition U64MAX : Z := 18446744073709551615.
   Record bucket := mkBucket { tokens : Z; max_tokens : Z }.
 
+  (* TokenBucketBudget::new: both sizes are scaled with saturating_mul and the initial
+     balance is capped at the maximum *)
+  Definition sat_scale (n : Z) : Z := Z.min (n * SCALE) U64MAX.
   Definition tb_new (max_t init_t : Z) : bucket :=
-    {| tokens := init_t * SCALE; max_tokens := max_t * SCALE |}.
+    {| tokens := Z.min (sat_scale init_t) (sat_scale max_t); max_tokens := sat_scale max_t |}.
   (* try_withdraw: load; if current < SCALE then false else CAS(current - SCALE) *)
   Definition tb_try_withdraw (b : bucket) : bool * bucket :=
     if tokens b <? SCALE then (false, b)
@@ -42,7 +46,7 @@ Section Retry.
 
   (* ---- policy.rs / config.rs ---- *)
   Record cfg := { pred : option (Err -> bool);      (* retry_predicate *)
-                  backoff : nat -> Z }.             (* interval_fn.next_interval(attempt), ms *)
+                  backoff : nat -> Z }.             (* interval_fn.next_interval(attempt), ns *)
 
   Definition should_retry (c : cfg) (e : Err) : bool :=
     match pred c with Some p => p e | None => true end.
@@ -75,8 +79,9 @@ Section Retry.
 
   (* ---- one request as a function of its outcome stream ----
      inner a  = (time until the result of attempt a is observed, the result)
-     ready a  = (extra wait beyond the backoff before attempt a >= 1 starts — late poll
-                 or pending readiness; 0 under prompt polling —, readiness error if any)
+     ready a  = (extra wait beyond the (rounded) end of the backoff sleep before attempt
+                 a >= 1 starts — late poll, exhausted cooperative budget or pending
+                 readiness; 0 under prompt polling —, readiness error if any)
      grant a  = answer of the budget to the withdrawal asked after attempt a failed *)
   Record run := mkRun { calls : list call; result : Res + Err; reason : why; ops : list bop }.
 
@@ -96,7 +101,7 @@ Section Retry.
         | Some e => mkRun [cl] (inr e) WNotReady bo
         | None =>
           let r := go c hb max inner ready grant f (S a)
-                      (tf + Z.max 0 d + Z.max 0 (fst (ready (S a)))) in
+                      (ceil_ms (tf + Z.max 0 d) + Z.max 0 (fst (ready (S a)))) in
           mkRun (cl :: calls r) (result r) (reason r) (bo ++ ops r)
         end
       end
@@ -114,7 +119,10 @@ Section Retry.
   (* ---- several requests, one budget, poll granularity ---- *)
   Inductive rdy := ROk | RErr (e : Err) | RGated.
   (* what the wrapped service does for one request: max_attempts of the request,
-     k-th call: (gated?, outcome), readiness before the k-th call (k >= 1) *)
+     k-th call: (gated?, outcome), readiness before the k-th call (k >= 1).
+     A gated call waits on a tokio oneshot (completed by the Complete event): its future is
+     a tokio resource and takes part in the cooperative budget; an ungated call returns at
+     once without touching the runtime. *)
   Record rin := { r_max : nat; r_inner : nat -> bool * outcome; r_ready : nat -> rdy }.
 
   Inductive phase :=
@@ -154,51 +162,66 @@ Section Retry.
   Definition start_call (inp : rin) (t : Z) (r : rst) : rst :=
     mkRst (PCalling (negb (fst (r_inner inp (attempt r))))) (attempt r) t (log r) (res r).
 
-  (* one poll of the call future of a request: runs until it has to wait *)
-  Fixpoint drive (c : cfg) (inp : rin) (fuel : nat) (t : Z) (r : rst) (b : option bucket)
-    : rst * option bucket * list bop * pres :=
+  (* one poll of the call future of a request: runs until it has to wait.
+     [coop]: what is left of the cooperative budget of this poll.  The last component
+     of the result is true when the poll ended because a tokio resource found the budget
+     exhausted: the future has then woken itself (and registered nowhere else). *)
+  Fixpoint drive (c : cfg) (inp : rin) (fuel coop : nat) (t : Z) (r : rst) (b : option bucket)
+    : rst * option bucket * list bop * pres * bool :=
     match fuel with
-    | O => (r, b, [], Pending)
+    | O => (r, b, [], Pending, false)              (* unreachable: Proof/Retry.v *)
     | S f =>
       match ph r with
-      | PInit => drive c inp f t (start_call inp t r) b
-      | PCalling false => (r, b, [], Pending)
-      | PCalling true =>
-        let o := snd (r_inner inp (attempt r)) in
-        let cl := mkCall (attempt r) (cur_start r) t o in
-        let g := match b with Some bk => fst (tb_try_withdraw bk) | None => true end in
-        match after_outcome c (is_some b) (r_max inp) (attempt r) o g with
-        | (bo, AReturn x w) =>
-          (mkRst PDone (attempt r) (cur_start r) (cl :: log r) (Some (x, w)),
-           apply_ops b bo, bo, Ready x)
-        | (bo, ARetry d) =>
-          let '(r', b', bo', p) :=
-            drive c inp f t (mkRst (PSleeping (t + Z.max 0 d)) (attempt r) (cur_start r)
-                                   (cl :: log r) (res r)) (apply_ops b bo) in
-          (r', b', bo ++ bo', p)
-        end
+      | PInit => drive c inp f coop t (start_call inp t r) b
+      | PCalling av =>
+        let gated := fst (r_inner inp (attempt r)) in
+        if gated && (coop =? 0)%nat then (r, b, [], Pending, true)
+        else if negb av then (r, b, [], Pending, false)
+        else
+          let coop1 := if gated then Nat.pred coop else coop in
+          let o := snd (r_inner inp (attempt r)) in
+          let cl := mkCall (attempt r) (cur_start r) t o in
+          let g := match b with Some bk => fst (tb_try_withdraw bk) | None => true end in
+          match after_outcome c (is_some b) (r_max inp) (attempt r) o g with
+          | (bo, AReturn x w) =>
+            (mkRst PDone (attempt r) (cur_start r) (cl :: log r) (Some (x, w)),
+             apply_ops b bo, bo, Ready x, false)
+          | (bo, ARetry d) =>
+            let '(r', b', bo', p, sw) :=
+              drive c inp f coop1 t
+                    (mkRst (PSleeping (ceil_ms (t + Z.max 0 d))) (attempt r) (cur_start r)
+                           (cl :: log r) (res r)) (apply_ops b bo) in
+            (r', b', bo ++ bo', p, sw)
+          end
       | PSleeping dl =>
-        if dl <=? t then
-          drive c inp f t (mkRst (PReadying false) (S (attempt r)) (cur_start r) (log r) (res r)) b
-        else (r, b, [], Pending)
+        match coop with
+        | O => (r, b, [], Pending, true)
+        | S k =>
+          if dl <=? t then
+            drive c inp f k t (mkRst (PReadying false) (S (attempt r)) (cur_start r) (log r) (res r)) b
+          else (r, b, [], Pending, false)
+        end
       | PReadying rel =>
         match r_ready inp (attempt r) with
-        | ROk => drive c inp f t (start_call inp t r) b
+        | ROk => drive c inp f coop t (start_call inp t r) b
         | RErr e =>
           (mkRst PDone (attempt r) (cur_start r) (log r) (Some (inr e, WNotReady)), b, [],
-           Ready (inr e))
-        | RGated => if rel then drive c inp f t (start_call inp t r) b else (r, b, [], Pending)
+           Ready (inr e), false)
+        | RGated => if rel then drive c inp f coop t (start_call inp t r) b
+                    else (r, b, [], Pending, false)
         end
-      | PDone => (r, b, [], Nothing)
+      | PDone => (r, b, [], Nothing, false)
       end
     end.
 
-  Definition poll_fuel (inp : rin) : nat := (4 * S (r_max inp) + 4)%nat.
+  (* between two completed sleeps a poll makes at most four micro-steps, and it completes
+     at most COOP sleeps *)
+  Definition poll_fuel : nat := (4 * (COOP + 2))%nat.
 
   Inductive ev := Poll (i : nat) | Advance (d : Z) | Complete (i : nat) | MakeReady (i : nat).
 
-  Record obs := mkObs { o_res : pres; o_ops : list bop; o_polled : bool }.
-  Definition no_obs : obs := mkObs Pending [] false.
+  Record obs := mkObs { o_res : pres; o_ops : list bop; o_polled : bool; o_self : bool }.
+  Definition no_obs : obs := mkObs Pending [] false false.
 
   Definition timer_fires (s : st) (t1 : Z) (j : nat) : bool :=
     match ph (reqs s j) with
@@ -206,13 +229,15 @@ Section Retry.
     | _ => false
     end.
 
-  Definition step (c : cfg) (inps : nat -> rin) (s : st) (e : ev) : st * obs :=
+  (* [pf]: bound on the micro-steps of one poll (never reached when 4 * cp + 3 < pf:
+     Proof/Retry.v); [cp]: cooperative budget of one poll.  run_script uses poll_fuel, COOP. *)
+  Definition step (c : cfg) (inps : nat -> rin) (pf cp : nat) (s : st) (e : ev) : st * obs :=
     match e with
     | Poll i =>
-      let '(r', b', bo, p) := drive c (inps i) (poll_fuel (inps i)) (now s) (reqs s i) (bud s) in
-      (mkSt (now s) b' (upd (reqs s) i r') (upd (woken s) i false)
+      let '(r', b', bo, p, sw) := drive c (inps i) pf cp (now s) (reqs s i) (bud s) in
+      (mkSt (now s) b' (upd (reqs s) i r') (upd (woken s) i sw)
             (rev (map (pair i) bo) ++ oplog s),
-       mkObs p bo true)
+       mkObs p bo true sw)
     | Advance d =>
       let t1 := now s + Z.max 0 d in
       (mkSt t1 (bud s) (reqs s) (fun j => woken s j || timer_fires s t1 j) (oplog s), no_obs)
@@ -236,7 +261,8 @@ Section Retry.
       end
     end.
 
-  Definition step_st (c : cfg) (inps : nat -> rin) (s : st) (e : ev) : st := fst (step c inps s e).
+  Definition step_st (c : cfg) (inps : nat -> rin) (pf cp : nat) (s : st) (e : ev) : st :=
+    fst (step c inps pf cp s e).
 
   (* inner calls started so far by a request, oldest first: (start, end or -1) *)
   Definition started_calls (r : rst) : list (Z * Z) :=
@@ -261,14 +287,18 @@ Arguments obs : clear implicits.
              backoff_0 .. backoff_{L-1};
              nreq blocks [max_i; (okind payload gated ready) x L];
              (op a)* ]
-     ma_mode 0: max_attempts(ma_fixed), 1: max_attempts_fn(|r| r.max)
+     ma_mode even: max_attempts(ma_fixed), odd: max_attempts_fn(|r| r.max); ma_mode / 2 tells the
+       harness how the requests reach the layer (0: one service per request, 1: all through one
+       Retry handle, 2: through clones of one handle) — the model does not depend on it
+     backoff_k: a duration (Lib/TokioTime.v ns_of: below 2^40 milliseconds, 2^40 + n = n nanoseconds)
      pred_mode 0: none, 1: error flag, 2: error code even, 3: never
      bkind 0: no budget, 1: token bucket (max bmax, initial binit)
      okind 0: Ok(payload), 1: Err(code payload, flag true), 2: Err(code payload, flag false)
      gated 0: the inner call returns at once, 1: when the script says Complete
      ready (before attempt k >= 1) 0: Ready(Ok), 1: Ready(Err(100000+payload, true)), 2: Pending until MakeReady
      op 1 = Poll a, 2 = Advance a ms, 3 = Complete a, 4 = MakeReady a
-   Attempts beyond L behave like the all-zero entry.
+   Attempts beyond L behave like the all-zero entry.  Instants in the trace are milliseconds
+   (all instants of a script are whole milliseconds).
    trace = per event [r; payload; wake mask; balance (-1 none); deposits; grants; denials]
            (r: -1 no poll, 0 pending, 1 Ok, 2 Err, 9 nothing to poll)
            ++ per request [number of inner calls; (start, end or -1) per call] ++ [0] *)
@@ -281,7 +311,7 @@ Definition outcome_of (kind p : Z) : outcome Z Zerr :=
   if kind =? 0 then Ok p else if kind =? 1 then Fail (p, true) else Fail (p, false).
 
 Definition rin_of (s : list Z) (L : nat) (ma_mode ma_fixed : Z) (base : nat) : rin Z Zerr :=
-  {| r_max := Z.to_nat (if ma_mode =? 0 then ma_fixed else zn s base);
+  {| r_max := Z.to_nat (if Z.even ma_mode then ma_fixed else zn s base);
      r_inner := fun k => (negb (entry s L base k 2 =? 0),
                           outcome_of (entry s L base k 0) (entry s L base k 1));
      r_ready := fun k =>
@@ -296,12 +326,13 @@ Definition pred_of (m : Z) : option (Zerr -> bool) :=
 
 Definition ev_of (n : nat) (t : Z * Z) : option ev :=
   let '(op, a) := t in
-  let i := Z.to_nat a in
-  let okid := (0 <=? a) && (i <? n)%nat in
-  if op =? 1 then (if okid then Some (Poll i) else None) else
-  if op =? 2 then Some (Advance a) else
-  if op =? 3 then (if okid then Some (Complete i) else None) else
-  if op =? 4 then (if okid then Some (MakeReady i) else None) else None.
+  if op =? 2 then Some (Advance (a * MS)) else
+  if (0 <=? a) && (a <? Z.of_nat n) then
+    let i := Z.to_nat a in
+    if op =? 1 then Some (Poll i) else
+    if op =? 3 then Some (Complete i) else
+    if op =? 4 then Some (MakeReady i) else None
+  else None.
 
 Fixpoint evs_of (n : nat) (l : list (Z * Z)) : list ev :=
   match l with
@@ -334,14 +365,14 @@ Fixpoint run_evs (c : cfg Zerr) (inps : nat -> rin Z Zerr) (n : nat) (s : st Z Z
   match evs with
   | [] => ([], s)
   | e :: rest =>
-    let '(s', o) := step c inps s e in
+    let '(s', o) := step c inps poll_fuel COOP s e in
     let '(tr, sf) := run_evs c inps n s' rest in
     (obs_ints s' n o ++ tr, sf)
   end.
 
 Definition calls_ints (r : rst Z Zerr) : list Z :=
   let l := started_calls r in
-  Z.of_nat (length l) :: flat_map (fun p => [fst p; snd p]) l.
+  Z.of_nat (length l) :: flat_map (fun p => [fst p / MS; if snd p <? 0 then -1 else snd p / MS]) l.
 
 Definition run_script (s : list Z) : list Z :=
   let ma_mode := zn s 0 in
@@ -349,7 +380,7 @@ Definition run_script (s : list Z) : list Z :=
   let n := Z.to_nat (zn s 6) in
   let L := Z.to_nat (zn s 7) in
   let c := {| pred := pred_of (zn s 2);
-              backoff := fun k => if (k <? L)%nat then zn s (8 + k) else 0 |} in
+              backoff := fun k => if (k <? L)%nat then ns_of (zn s (8 + k)) else 0 |} in
   let b := if zn s 3 =? 0 then None else Some (tb_new (Z.max 0 (zn s 4)) (Z.max 0 (zn s 5))) in
   let blk := (1 + 4 * L)%nat in
   let inps := fun i => rin_of s L ma_mode ma_fixed (8 + L + i * blk) in
